@@ -21,7 +21,14 @@ func main() {
 	replay := flag.String("replay", "", "replay file")
 	scale := flag.Float64("scale", 1.0, "multiplies the case budget")
 	list := flag.Bool("list", false, "list engines")
+	stress := flag.String("stress", "", "run the concurrency stress workload of an engine (conc); meant for a -race build")
+	seconds := flag.Int("seconds", 40, "duration of the stress workload")
+	work := flag.String("work", "", "scratch directory of the stress run (race detector logs)")
 	flag.Parse()
+
+	if *stress != "" {
+		os.Exit(runStress(*stress, *seconds, *seed, *work))
+	}
 
 	if *list {
 		for _, k := range sortedKeysE() {
